@@ -59,7 +59,7 @@ impl Parser {
 
     // the operand pairs behind the Closure instruction that starts at position `at`
     pub open spec fn pairs_ok(&self, at: int, ups: Seq<Upvalue>, n: int) -> bool {
-        forall|i: int| 0 <= i < n ==> #[trigger] self.code[at + 3 + 2 * i] == (if ups[i].is_local { 1u8 } else { 0u8 }) && self.code[at + 3 + 2 * i + 1] == ups[i].index
+        forall|i: int| #![trigger ups[i]] 0 <= i < n ==> self.code[at + 3 + 2 * i] == (if ups[i].is_local { 1u8 } else { 0u8 }) && self.code[at + 3 + 2 * i + 1] == ups[i].index
     }
 
     //@fn file=yarel/src/compiler.rs path=Parser::function
